@@ -16,6 +16,7 @@
 //   pgbook all <seed> <fen>        as computerPlayer.cpp: getBookMove, then getAllBookMoves if a move came back
 //   pgbook sparse <len> / dir      BookFile := sparse file of <len> zero bytes / a directory
 //   pgbook line <k>                moves of built-in book line k as UCI (input generator)
+//   pgbook walk <k> <seed>         built-in book probed at every position of its own line k
 #include <memory>
 #include <vector>
 #include <string>
@@ -175,6 +176,35 @@ std::string handle(const std::vector<std::string>& a) {
             }
             return std::to_string(n) + " " + vJoin(out);
         }
+        if (op == "walk" && a.size() == 3) {
+            // built-in book along its own line k, probing the Position object reached by makeMove (as in a game):
+            // "<fen> | <bad?> <line move> | <probe result>" per ply, separated by " ; "
+            U64 k = vToU64(a[1]), seed = vToU64(a[2]);
+            U64 n = 0;
+            while (Book::bookLines[n]) n++;
+            if (k >= n) return "bad-op";
+            Book book(false);
+            book.initBook();
+            Book::rndGen.setSeed(seed);
+            Position pos = TextIO::readFEN(TextIO::startPosFEN);
+            std::vector<std::string> toks;
+            splitString(Book::bookLines[k], toks);
+            UndoInfo ui;
+            std::string out;
+            for (std::string s : toks) {
+                bool bad = false;
+                if (!s.empty() && s.back() == '?') { s.pop_back(); bad = true; }
+                Move lm = TextIO::stringToMove(pos, s);
+                if (lm.isEmpty()) return "bad-line";
+                Move m;
+                book.getBookMove(pos, m);
+                if (!out.empty()) out += " ; ";
+                out += TextIO::toFEN(pos) + " | " + (bad ? "1 " : "0 ") + TextIO::moveToUCIString(lm) + " | ";
+                out += m.isEmpty() ? std::string("none") : TextIO::moveToUCIString(m) + " legal=" + (isLegalMove(pos, m) ? "1" : "0");
+                pos.makeMove(lm, ui);
+            }
+            return out;
+        }
         if (op == "key" && a.size() >= 2) {
             Position pos = TextIO::readFEN(vFenOf(a, 1, a.size()));
             return vHex(PolyglotBook::getHashKey(pos));
@@ -190,8 +220,6 @@ std::string handle(const std::vector<std::string>& a) {
             Position pos = TextIO::readFEN(vFenOf(a, 2, a.size()));
             Move mv = TextIO::uciStringToMove(a[1]);
             if (mv.isEmpty()) return "bad-op";
-            if (mv.promoteTo() != Piece::EMPTY && !pos.isWhiteMove())
-                mv = Move(mv.from(), mv.to(), mv.promoteTo() + (Piece::BQUEEN - Piece::WQUEEN));
             return std::to_string(PolyglotBook::getPGMove(pos, mv));
         }
         if (op == "entries" && a.size() >= 2) {
